@@ -18,7 +18,7 @@ OBLIGATIONS = [
      "expect_classes": ["assertion"], "expect_min": 10},
     {"name": "batch_resets_before_first_program", "files": [DRV, "@suites/common/harness_driver.c"], "incdirs": INC,
      "defines": ['RXV_CONTRACTS_H="decls_driver.h"'], "entry": "h_batch", "unwind": 10,
-     "expect_classes": ["assertion"], "expect_min": 10},
+     "expect_classes": ["assertion"], "expect_min": 10, "replay": {"prog": "replay_batch_mxcsr.cpp", "sources": "lib", "flags": ["-O1"], "no_args": True}},
     {"name": "reset_rounding_mode_contract", "files": [{"cxx": XS.VM_RESET, "out": "vm.c", "header": True}, "harness_reset.c"], "incdirs": INC,
      "entry": "h_reset", "replay": {"prog": "replay_mxcsr.cpp", "sources": "lib", "flags": ["-O1"], "vars": ["rxv_mxcsr"]}, "expect_classes": ["assertion"], "expect_min": 3},
 ]
